@@ -37,10 +37,12 @@
 //     (vstd::std_specs::hash::group_hash_axioms);
 //   rule `stepby`: `for i in (a..b).step_by(k)` as the while loop a, a+k, .. < b (its `+= k` overflow obligation is discharged from
 //     total_length <= usize::MAX - 2, true for any Vec);
-//   SupportedConeT (opaque stand-in: nvars uninterpreted, clone returns an equal value), DefaultVariables::new (lengths n, m, m);
+//   SupportedConeT (opaque stand-in: nvars uninterpreted, clone returns an equal value), DefaultVariables::new (x of length n, s and z zero
+//     vectors of length m);
 //   ChordalInfo::{get_decomposed_dim_and_overlaps, decomp_augment_compact, decomp_augment_standard, decomp_reverse_compact,
 //     decomp_reverse_standard, psd_completion}: bodies out of reach (peekable iterators, closures, LAPACK).  Assumed of them: which of H /
-//     cone_maps they fill (by inspection of `self.cone_maps = Some(..)` / `self.H = Some(..)`), that the reversal routines keep the lengths of
+//     cone_maps they fill (by inspection of `self.cone_maps = Some(..)` / `self.H = Some(..)`), which of them the reversal routines unwrap
+//     (their only assumed precondition - it is what pins the dispatch of decomp_reverse), that their effect on s, z is given by the uninterpreted rev_s / rev_z / completed_z, that they keep the lengths of
 //     s and z and do not touch x (by inspection: they only write new_vars.s / new_vars.z).
 // PRECONDITIONS and the call sites:
 //   sorted rows (`rows_sorted(A)`, `colptr[0] == 0`, `nondecreasing(b.nzind)`): b.nzind by SparseVector::new (proved here); A is the user's
@@ -86,6 +88,8 @@ pub assume_specification<Idx: Clone> [<Range<Idx> as Clone>::clone] (r: &Range<I
 pub uninterp spec fn range_is_empty_spec<Idx>(r: Range<Idx>) -> bool;
 pub assume_specification<Idx: PartialOrd<Idx>> [Range::<Idx>::is_empty] (r: &Range<Idx>) -> (b: bool) where Idx: PartialOrd<Idx> ensures b == range_is_empty_spec::<Idx>(*r);
 pub broadcast proof fn ax_range_is_empty_usize(r: Range<usize>) ensures #[trigger] range_is_empty_spec::<usize>(r) == !(r.start < r.end) { admit(); }
+// vacuity guard for the admitted instance: this lemma MUST FAIL
+pub proof fn canary_range_axiom() ensures false { broadcast use ax_range_is_empty_usize; }
 // rule `rangeeq`: `r.eq(0..0)` on a Range<usize> is Iterator::eq (by-value receiver wins over PartialEq::eq(&self, &other)): the two
 // ranges yield the same sequence, i.e. r yields nothing  (ASSUMED)
 #[verifier::external_body]
@@ -812,9 +816,10 @@ pub open spec fn shifted(r: int, rs: int, row_ptr: int) -> int { r - rs + row_pt
 pub fn usize_iter_max_or0(v: &Vec<usize>) -> (r: &usize)
     ensures forall|k: int| 0 <= k < v@.len() ==> #[trigger] v@[k] <= *r, v@.len() == 0 ==> *r == 0, v@.len() > 0 ==> exists|k: int| 0 <= k < v@.len() && v@[k] == *r,
 { v.iter().max().unwrap_or(&0) }
+pub open spec fn zeros_seq(m: nat) -> Seq<F> { Seq::new(m, |i: int| f_zero()) }
 impl DefaultVariables<F> {
     // ASSUMED (real body: three vec![T::zero(); _] and two ones; not extracted here)
-    #[verifier::external_body] pub fn new(n: usize, m: usize) -> (r: Self) ensures r.x@.len() == n, r.s@.len() == m, r.z@.len() == m { unimplemented!() }
+    #[verifier::external_body] pub fn new(n: usize, m: usize) -> (r: Self) ensures r.x@.len() == n, r.s@ == zeros_seq(m as nat), r.z@ == zeros_seq(m as nat) { unimplemented!() }
 }
 pub type AugmentResult = (CscMatrix<F>, Vec<F>, CscMatrix<F>, Vec<F>, Vec<SupportedConeT<F>>);
 impl ChordalInfo<F> {
@@ -822,17 +827,23 @@ impl ChordalInfo<F> {
     // only which of the two bookkeeping fields they fill (by inspection: `self.cone_maps = Some(cone_maps)` in find_compact_A_b_and_cones,
     // `self.H = Some(H)` in find_standard_H_and_cones) and that the reversal routines keep the lengths and do not touch x
     pub uninterp spec fn dim_and_overlaps(&self) -> (usize, usize);
+    // what the reversal of the compact (true) / standard (false) form makes of s and z, and what the completion makes of z: uninterpreted
+    pub uninterp spec fn rev_s(&self, compact: bool, old_vars: DefaultVariables<F>, old_cones: Seq<SupportedConeT<F>>, s0: Seq<F>) -> Seq<F>;
+    pub uninterp spec fn rev_z(&self, compact: bool, old_vars: DefaultVariables<F>, old_cones: Seq<SupportedConeT<F>>, z0: Seq<F>) -> Seq<F>;
+    pub uninterp spec fn completed_z(&self, z: Seq<F>) -> Seq<F>;
     #[verifier::external_body] pub fn get_decomposed_dim_and_overlaps(&self) -> (r: (usize, usize)) ensures r == self.dim_and_overlaps() { unimplemented!() }
     #[verifier::external_body] pub fn decomp_augment_compact(&mut self, P: &CscMatrix<F>, q: &[F], A: &CscMatrix<F>, b: &[F]) -> (r: AugmentResult)
         ensures final(self).cone_maps is Some, final(self).H == old(self).H, final(self).init_dims == old(self).init_dims { unimplemented!() }
     #[verifier::external_body] pub fn decomp_augment_standard(&mut self, P: &CscMatrix<F>, q: &[F], A: &CscMatrix<F>, b: &[F]) -> (r: AugmentResult)
         ensures final(self).H is Some, final(self).cone_maps == old(self).cone_maps, final(self).init_dims == old(self).init_dims { unimplemented!() }
     #[verifier::external_body] pub fn decomp_reverse_compact(&self, new_vars: &mut DefaultVariables<F>, old_vars: &DefaultVariables<F>, old_cones: &[SupportedConeT<F>])
-        ensures final(new_vars).x@ == old(new_vars).x@, final(new_vars).s@.len() == old(new_vars).s@.len(), final(new_vars).z@.len() == old(new_vars).z@.len() { unimplemented!() }
+        requires self.cone_maps is Some,   // its first use: `self.cone_maps.as_ref().unwrap()`
+        ensures final(new_vars).s@ == self.rev_s(true, *old_vars, old_cones@, old(new_vars).s@), final(new_vars).z@ == self.rev_z(true, *old_vars, old_cones@, old(new_vars).z@), final(new_vars).x@ == old(new_vars).x@, final(new_vars).s@.len() == old(new_vars).s@.len(), final(new_vars).z@.len() == old(new_vars).z@.len() { unimplemented!() }
     #[verifier::external_body] pub fn decomp_reverse_standard(&self, new_vars: &mut DefaultVariables<F>, old_vars: &DefaultVariables<F>, old_cones: &[SupportedConeT<F>])
-        ensures final(new_vars).x@ == old(new_vars).x@, final(new_vars).s@.len() == old(new_vars).s@.len(), final(new_vars).z@.len() == old(new_vars).z@.len() { unimplemented!() }
+        requires self.H is Some,           // its first statement: `self.H.as_ref().unwrap()`
+        ensures final(new_vars).s@ == self.rev_s(false, *old_vars, old_cones@, old(new_vars).s@), final(new_vars).z@ == self.rev_z(false, *old_vars, old_cones@, old(new_vars).z@), final(new_vars).x@ == old(new_vars).x@, final(new_vars).s@.len() == old(new_vars).s@.len(), final(new_vars).z@.len() == old(new_vars).z@.len() { unimplemented!() }
     #[verifier::external_body] pub fn psd_completion(&self, variables: &mut DefaultVariables<F>)
-        ensures final(variables).x@ == old(variables).x@, final(variables).s@ == old(variables).s@, final(variables).z@.len() == old(variables).z@.len() { unimplemented!() }
+        ensures final(variables).z@ == self.completed_z(old(variables).z@), final(variables).x@ == old(variables).x@, final(variables).s@ == old(variables).s@, final(variables).z@.len() == old(variables).z@.len() { unimplemented!() }
 
 //@fn file=src/solver/chordal/decomp/augment_compact.rs in="impl<T> ChordalInfo<T>" name=find_A_dimension rules=R1 ret=res
 //@contract
@@ -878,6 +889,10 @@ it
         // C18 (mapping a solution back returns vectors of the original size), x is the leading part of the internal x
         res.x@.len() == self.init_dims.0, res.s@.len() == self.init_dims.1, res.z@.len() == self.init_dims.1,
         res.x@ == old_vars.x@.subrange(0, self.init_dims.0 as int),
+        // s and z: the reversal selected by the setting, applied to zero vectors of length m; z is completed exactly when complete_dual is set
+        res.s@ == self.rev_s(settings.chordal_decomposition_compact, *old_vars, old_cones@, zeros_seq(self.init_dims.1 as nat)),
+        res.z@ == ({ let zr = self.rev_z(settings.chordal_decomposition_compact, *old_vars, old_cones@, zeros_seq(self.init_dims.1 as nat));
+                     if settings.chordal_decomposition_complete_dual { self.completed_z(zr) } else { zr } }),
 //@end
 }
 
